@@ -672,6 +672,11 @@ def discharge(B, R, site):
                         # and the destination prefix exists: n <= len(dst)
                         dlen = ('len', canon(B, it['args'][0]))
                         sl = _static_len(B, it['args'][0])
+                        if sl is None and it.get('aty'):
+                            import re as _re
+                            m_ = _re.match(r'&(mut )?\[[^;\]]+; (\d+)\]$', it['aty'][0])
+                            if m_:
+                                sl = int(m_.group(2))
                         if sl is not None:
                             dlen = ('const', sl)
                         if R.prove_le(n, dlen, bb, False):
